@@ -294,7 +294,8 @@ def _run_one(args):
                 # recorded known findings are on the unchanged tree as well: they say nothing about this variant
                 known = {(k["rule"], k["instance"], k.get("statement", "")) for k in load_known()
                          if k.get("property") == pid and k.get("status") == "known"}
-                return [o for o in ctx.findings if Ctx.key(o) not in known and (o["rule"], o["instance"], "*") not in known]
+                return [o for o in ctx.findings if Ctx.key(o) not in known and (o["rule"], o["instance"], "*") not in known
+            and not any(k_[0] == o["rule"] and k_[2] == "*" and k_[1].startswith("*") and o["instance"].endswith(k_[1][1:]) for k_ in known)]
             try:
                 mod.check(ctx)
             except AnalysisError as e:
